@@ -1,13 +1,20 @@
-"""C09 - the request body stream never over-reads, truncates or hangs (structural clauses)."""
+"""C09 - the request body stream never over-reads, truncates or hangs (structural clauses).
+
+Branch structure is compared through canonical guard atoms and decision tables
+(wzsa/guards.py), so if/else flips, early returns, merged / split conditions,
+De Morgan rewrites and conditional expressions are all read the same way.
+"""
 
 from __future__ import annotations
 
 import ast
+import re
 
 from .. import astq
 from ..cfg import CFG, Node, cfg_of
 from ..dataflow import ReachingDefs
-from ..fold import Folder, RegexConst, classes_in, single_class
+from ..fold import Folder, RegexConst, classes_in
+from ..guards import atom, canon, decision_table, guard_set, has, simulate, test_keys
 from ..loader import AnalysisError, FuncInfo, dotted, norm, walk_no_nested
 from ..report import Ctx
 
@@ -17,29 +24,32 @@ LEVEL_TEXT = (
     "read is bounded by limit - position and is dominated by the exhausted test; (R9.3) the position moves only by the "
     "count the underlying call returned, which is also what readinto returns; (R9.4) every slice store into the caller's "
     "buffer is length-exact; (R9.5) I/O errors, empty reads and exhaustion are routed to on_disconnect / on_exhausted, "
-    "which raise ClientDisconnected / RequestEntityTooLarge under exactly the documented conditions; (R9.6) "
-    "get_input_stream's returns, by dominating guards, are the documented table, the declared-length test dominates "
-    "every return, and get_content_length is total (digits-only ASCII pattern, ValueError -> 0, chunked/absent -> None); "
-    "(R9.7) readall leaves its loop only on exhaustion or an empty read. It decides these clauses on all paths; "
+    "whose decision tables are the documented ones (ClientDisconnected unless maximum-limited and error-free; "
+    "RequestEntityTooLarge iff maximum-limited); (R9.6) get_input_stream's decision table over its condition atoms is the "
+    "documented one (declared length above the maximum refused first; maximum-limited stream / raw stream / empty stream / "
+    "length-limited stream), and get_content_length is total (digits-only ASCII pattern, ValueError -> 0, chunked/absent -> "
+    "None); (R9.7) readall leaves its loop only on exhaustion or an empty read. It decides these clauses on all paths; "
     "byte-exact prefix equality follows from them plus io.RawIOBase's contract and is not itself checked."
 )
 TRUSTED = ["CPython ast and re._parser", "io.RawIOBase routes read/readline/readlines/iteration through readinto/readall", "the underlying stream honours its own read(n)/readinto(b) contract"]
 ASSUMPTIONS = ["positive-size or unbounded reads (as the property states)"]
 
 
-def _guards(cfg: CFG, node: Node) -> set[str]:
-    return {f"{norm(t.ast)}:{l}" for t, l in cfg.guards(node)}
+def _strip_cast(v: ast.AST | None) -> ast.AST | None:
+    while isinstance(v, ast.Call) and (dotted(v.func) or "").endswith("cast") and len(v.args) == 2:
+        v = v.args[1]
+    return v
 
 
 def run(ctx: Ctx) -> None:
     repo = ctx.repo
     for rid, text in {
         "R9.1": "self._stream is used only inside LimitedStream.readinto (and assigned in __init__); read/readline/readlines/__next__/__iter__ are not overridden; readall/exhaust read only through self.read/self.readall",
-        "R9.2": "each underlying call reads at most remaining = limit - _pos bytes and is dominated by the false edge of `remaining <= 0`",
+        "R9.2": "each underlying call reads at most remaining = limit - _pos bytes and happens only when remaining > 0",
         "R9.3": "_pos is written only as 0 in __init__ and by += <count returned by the underlying call>; readinto returns that count",
         "R9.4": "every slice store into the caller's buffer `b[:n] = src` has len(src) == n by construction",
-        "R9.5": "each underlying call sits in a try whose handler covers OSError and calls on_disconnect(error=...); an empty result calls on_disconnect(); exhaustion calls on_exhausted(); the two hooks raise under the documented conditions",
-        "R9.6": "get_input_stream returns only: LimitedStream(stream, max, is_max=True) under terminated & max; raw stream under terminated & no max, or no length & not safe_fallback; BytesIO() under no length & safe_fallback; LimitedStream(stream, content_length) otherwise; the > max_content_length test dominates every return; get_content_length is total",
+        "R9.5": "each underlying call sits in a try whose handler covers OSError and calls on_disconnect(error=...); an empty result calls on_disconnect(); exhaustion calls on_exhausted(); decision tables of the two hooks",
+        "R9.6": "decision table of get_input_stream over its condition atoms equals the documented one; get_content_length is total",
         "R9.7": "readall leaves its read loop only when exhausted or after an empty read",
     }.items():
         ctx.rule(rid, text)
@@ -54,17 +64,8 @@ def run(ctx: Ctx) -> None:
     bufname = ri.params[1]
 
     # ---------------- R9.1 -------------------------------------------
-    users = []
-    for name, fi in ls.methods.items():
-        if any(astq.is_self_attr(n, "_stream") for n in ast.walk(fi.node)):
-            users.append(name)
+    users = [name for name, fi in ls.methods.items() if any(astq.is_self_attr(n, "_stream") for n in ast.walk(fi.node))]
     ctx.ob("R9.1", "underlying stream used only by readinto", sorted(users) == ["__init__", "readinto"], f"methods touching self._stream: {sorted(users)}", ri, ri.node, "stream users")
-    for fi in repo.all_functions():
-        if fi.cls is ls:
-            continue
-        for n in ast.walk(fi.node):
-            if isinstance(n, ast.Attribute) and n.attr == "_stream" and isinstance(n.value, ast.Name) and fi.module.name == "werkzeug.wsgi" and fi.cls is not None and fi.cls.name == "LimitedStream":
-                ctx.ob("R9.1", "no other user of the private stream", False, fi.fq, fi, n, f"{fi.fq} uses _stream")
     over = [m for m in ("read", "readline", "readlines", "__next__", "__iter__", "read1") if m in ls.methods]
     ctx.ob("R9.1", "derived readers are RawIOBase's", not over, f"overridden: {over}", ls.fq, None, "no derived reader overridden")
     bases = [k.fq for k in repo.mro(ls)[1:]]
@@ -78,66 +79,110 @@ def run(ctx: Ctx) -> None:
         ctx.ob("R9.1", f"{nm} reads only through read/readall", calls <= {"read", "readall", "on_exhausted"}, f"self-calls {sorted(calls)}", fi, fi.node, f"{nm} self calls")
 
     # ---------------- slots in readinto --------------------------------
-    rem_defs = [(s, v) for s, v in astq.assigns_to(ri.node, "remaining")]
-    if len(rem_defs) != 1 or norm(rem_defs[0][1]) not in ("self.limit - self._pos",):
-        raise AnalysisError("readinto: `remaining = self.limit - self._pos` not found (slot)")
-    rem_node = cfg.node_of(rem_defs[0][0])
-    exh_tests = [t for t in cfg.tests() if t.kind == "test" and norm(t.ast) in ("remaining <= 0", "remaining < 1", "0 >= remaining")]
-    if len(exh_tests) != 1:
-        raise AnalysisError("readinto: exhausted test `remaining <= 0` not found (slot)")
-    exh = exh_tests[0]
+    local_names = {t_.id for s in walk_no_nested(ri.node) if isinstance(s, (ast.Assign, ast.AnnAssign)) for t_ in (s.targets if isinstance(s, ast.Assign) else [s.target]) if isinstance(t_, ast.Name)}
+    rem_names = [nm for nm in sorted(local_names) if any(v is not None and norm(v) == "self.limit - self._pos" for _, v in astq.assigns_to(ri.node, nm))]
+    if len(rem_names) != 1:
+        raise AnalysisError("readinto: `<name> = self.limit - self._pos` not found (slot)")
+    REM = rem_names[0]
+    size_names = [nm for nm in sorted(local_names) if astq.assigns_to(ri.node, nm) and all(v is not None and norm(v) == f"len({bufname})" for _, v in astq.assigns_to(ri.node, nm))]
+    SIZES = size_names + [f"len({bufname})"]
     under = [c for c in astq.calls(ri.node) if isinstance(c.func, ast.Attribute) and astq.is_self_attr(c.func.value, "_stream")]
-    ctx.floor("R9.2", "underlying call sites", len(under), 3)
-    size_names = {n for n, in [(s,) for s in []]}
-    size_vars = [nm for nm in ("size",) if any(norm(v) == f"len({bufname})" for _, v in astq.assigns_to(ri.node, nm) if v is not None)]
+    ctx.floor("R9.2", "underlying call sites", len(under), 2)
+
+    def positive_remaining(g) -> bool:
+        return has(g, f"{REM} > 0") or has(g, f"{REM} >= 1") or has(g, f"{REM} < 1", False) or has(g, f"{REM} <= 0", False)
+
+    def fits(g, extra=()) -> bool:
+        gg = set(g) | set(extra)
+        return any(has(gg, f"{s} <= {REM}") for s in SIZES)
+
+    def bool_name_atoms(name: str, node: Node) -> ast.AST | None:
+        defs = rd.reaching(node, name)
+        if len(defs) == 1:
+            d = next(iter(defs))
+            if d.kind == "assign" and d.index is None and isinstance(d.value, (ast.Compare, ast.UnaryOp, ast.BoolOp)):
+                return d.value
+        return None
+
+    def expand_flags(g: set, node: Node) -> set:
+        """a guard on a local boolean whose single definition is a comparison implies that comparison."""
+        out = set(g)
+        for k, v in list(g):
+            if k.isidentifier():
+                sub = bool_name_atoms(k, node)
+                if sub is not None and not isinstance(sub, ast.BoolOp):
+                    kk, pp = canon(sub)
+                    out.add((kk, v == pp))
+        return out
+
+    def bounded_buffer(e: ast.AST, node: Node, extra: frozenset = frozenset(), depth: int = 0) -> tuple[bool, str]:
+        g = expand_flags(guard_set(cfg, node), node)
+        if isinstance(e, ast.Call) and dotted(e.func) == "bytearray" and len(e.args) == 1 and norm(e.args[0]) == REM:
+            return True, f"bytearray({REM})"
+        if isinstance(e, ast.Name) and e.id == bufname:
+            ok = fits(g, extra)
+            return ok, f"caller's buffer under size <= {REM}: {ok}"
+        if isinstance(e, ast.IfExp):
+            t_: ast.AST = e.test
+            if isinstance(t_, ast.Name):
+                sub = bool_name_atoms(t_.id, node)
+                t_ = sub if sub is not None else t_
+            k, p = canon(t_)
+            a, wa = bounded_buffer(e.body, node, extra | {(k, p)}, depth + 1)
+            b, wb = bounded_buffer(e.orelse, node, extra | {(k, not p)}, depth + 1)
+            return a and b, f"({wa}) if {norm(e.test)} else ({wb})"
+        if isinstance(e, ast.Name) and depth < 4:
+            defs = rd.reaching(node, e.id)
+            if not defs:
+                return False, f"`{e.id}` undefined"
+            res = [bounded_buffer(d.value, node, extra, depth + 1) if d.value is not None and d.kind == "assign" and d.index is None else (False, d.kind) for d in defs]
+            return all(r[0] for r in res), f"`{e.id}` = " + " | ".join(r[1] for r in res)
+        return False, f"unrecognised buffer `{norm(e)}`"
+
+    def bounded_size(e: ast.AST, node: Node, depth: int = 0) -> tuple[bool, str]:
+        if isinstance(e, ast.Call) and dotted(e.func) == "min" and any(norm(x) == REM for x in e.args):
+            return True, norm(e)
+        if norm(e) == REM:
+            return True, REM
+        if isinstance(e, ast.Name) and depth < 4:
+            defs = rd.reaching(node, e.id)
+            res = [bounded_size(d.value, d.node or node, depth + 1) if d.value is not None and d.kind == "assign" and d.index is None else (False, d.kind) for d in defs]
+            return bool(res) and all(r[0] for r in res), f"`{e.id}` = " + " | ".join(r[1] for r in res)
+        return False, f"size `{norm(e)}` not bounded by {REM}"
 
     # ---------------- R9.2 / R9.5 per underlying call -------------------
     for c in under:
         node = cfg.node_of(c)
         kind = c.func.attr  # type: ignore[attr-defined]
-        g = _guards(cfg, node)
-        dom = cfg.edge_dominates(exh, "F", node)
-        bounded = False
-        why = ""
+        g = guard_set(cfg, node)
+        dom = positive_remaining(g)
         if kind == "readinto" and c.args:
-            a = c.args[0]
-            if astq.is_name(a, bufname):
-                want = {f"{sv} <= remaining:T" for sv in size_vars} | {f"len({bufname}) <= remaining:T", "remaining >= size:T"}
-                bounded = bool(g & want)
-                why = f"buffer is the caller's; dominating guards {sorted(x for x in g if 'remaining' in x)}"
-            elif isinstance(a, ast.Name):
-                defs = rd.reaching(node, a.id)
-                bounded = bool(defs) and all(d.value is not None and norm(d.value) == "bytearray(remaining)" for d in defs)
-                why = f"buffer `{a.id}` defined as {[norm(d.value) for d in defs if d.value is not None]}"
+            bounded, why = bounded_buffer(c.args[0], node)
         elif kind == "read" and c.args:
-            a = c.args[0]
-            bounded = isinstance(a, ast.Call) and dotted(a.func) == "min" and any(astq.is_name(x, "remaining") for x in a.args)
-            why = f"size argument `{norm(a)}`"
+            bounded, why = bounded_size(c.args[0], node)
         else:
-            why = f"unrecognised underlying call `{norm(c)}`"
-        ctx.ob("R9.2", f"`{norm(c)}` reads at most the remaining bytes", bounded and dom, why + f"; dominated by not-exhausted: {dom}", ri, c, f"bounded {norm(c)}")
-        # R9.5: inside try with OSError handler -> on_disconnect(error=e); return
+            bounded, why = False, f"unrecognised underlying call `{norm(c)}`"
+        ctx.ob("R9.2", f"underlying {kind}() reads at most the remaining bytes", bounded and dom, f"`{norm(c)}`: {why}; only when {REM} > 0: {dom}", ri, c, f"bounded underlying {kind} {norm(c)}")
         tr = astq.enclosing(c, (ast.Try,))
         ok5 = False
         fact5 = "not inside a try"
-        if isinstance(tr, ast.Try) and any(c is x for s in tr.body for x in ast.walk(s)):
-            for h in tr.handlers:
-                names = []
-                if h.type is None:
-                    names = ["BaseException"]
-                elif isinstance(h.type, ast.Tuple):
-                    names = [dotted(e) or "" for e in h.type.elts]
-                else:
-                    names = [dotted(h.type) or ""]
-                covers = any(nm.rsplit(".", 1)[-1] in ("OSError", "Exception", "BaseException", "IOError", "EnvironmentError") for nm in names)
-                calls_dc = any(isinstance(cc.func, ast.Attribute) and cc.func.attr == "on_disconnect" and any(kw.arg == "error" for kw in cc.keywords) for cc in astq.calls(h))
-                ends = any(isinstance(s, (ast.Return, ast.Raise)) for s in h.body)
-                if covers and calls_dc and ends:
-                    ok5 = True
-                fact5 = f"handler {names}: covers OSError={covers}, calls on_disconnect(error=)={calls_dc}, leaves={ends}"
-        ctx.ob("R9.5", f"`{norm(c)}` I/O errors routed to on_disconnect", ok5, fact5, ri, c, f"error routing {norm(c)}")
-    # remaining is computed before anything else that reads
-    ctx.ob("R9.2", "exhausted branch calls on_exhausted and returns", _branch_calls(cfg, exh, "T", "on_exhausted") and not _reaches_underlying(cfg, exh, "T", under), "true edge of `remaining <= 0`", ri, exh.ast, "exhausted branch")
+        while isinstance(tr, ast.Try) and not ok5:
+            if any(c is x for s in tr.body for x in ast.walk(s)):
+                for h in tr.handlers:
+                    names = ["BaseException"] if h.type is None else [dotted(e) or "" for e in (h.type.elts if isinstance(h.type, ast.Tuple) else [h.type])]
+                    covers = any(nm.rsplit(".", 1)[-1] in ("OSError", "Exception", "BaseException", "IOError", "EnvironmentError") for nm in names)
+                    calls_dc = any(isinstance(cc.func, ast.Attribute) and cc.func.attr == "on_disconnect" and (any(kw.arg == "error" for kw in cc.keywords) or len(cc.args) == 1) for cc in astq.calls(h))
+                    ends = any(isinstance(s, (ast.Return, ast.Raise)) for s in h.body)
+                    fact5 = f"handler {names}: covers OSError={covers}, calls on_disconnect(error=)={calls_dc}, leaves={ends}"
+                    if covers and calls_dc and ends:
+                        ok5 = True
+            tr = astq.enclosing(tr, (ast.Try,))
+        ctx.ob("R9.5", f"underlying {kind}() I/O errors routed to on_disconnect", ok5, f"`{norm(c)}`: {fact5}", ri, c, f"error routing underlying {kind} {norm(c)}")
+    # with nothing remaining: on_exhausted() is called and the underlying stream is not touched
+    k_exh = atom(f"{REM} <= 0")
+    outs = simulate(cfg, lambda k: (k_exh[1] if k == k_exh[0] else None))
+    exh_ok = bool(outs) and all(any(_calls(n, "on_exhausted") for n in o.passed) and not any(_touches_under(n) for n in o.passed) for o in outs)
+    ctx.ob("R9.2", "with nothing remaining, on_exhausted() is called and the underlying stream is not touched", exh_ok, f"paths under `{REM} <= 0`: {len(outs)}", ri, ri.node, "exhausted branch")
 
     # ---------------- R9.3 -------------------------------------------
     pos_writes = []
@@ -154,36 +199,30 @@ def run(ctx: Ctx) -> None:
         inc = incs[0][2]
         inc_node = cfg.node_of(inc)
         cnt = inc.value
-        ok_cnt = False
-        fact = norm(cnt)
-        if isinstance(cnt, ast.Name):
-            defs = rd.reaching(inc_node, cnt.id)
-            good = []
-            for d in defs:
-                v = d.value
-                if v is None:
-                    good.append(False)
-                    continue
-                if isinstance(v, ast.Call) and isinstance(v.func, ast.Attribute) and astq.is_self_attr(v.func.value, "_stream") and v.func.attr == "readinto":
-                    good.append(True)
-                elif isinstance(v, ast.Call) and dotted(v.func) == "len" and isinstance(v.args[0], ast.Name):
-                    ddefs = rd.reaching(d.node, v.args[0].id) if d.node is not None else set()
-                    good.append(bool(ddefs) and all(dd.value is not None and isinstance(dd.value, ast.Call) and isinstance(dd.value.func, ast.Attribute) and astq.is_self_attr(dd.value.func.value, "_stream") and dd.value.func.attr == "read" for dd in ddefs))
-                else:
-                    good.append(False)
-            ok_cnt = bool(good) and all(good)
-            fact = f"`{cnt.id}` defined by {[norm(d.value) for d in defs if d.value is not None]}"
-        ctx.ob("R9.3", "_pos advances by the count the underlying call returned", ok_cnt, fact, ri, inc, "_pos increment source")
-        # value returned after the increment is the same count; every other return is 0
+
+        def from_underlying(e: ast.AST, node: Node, depth: int = 0) -> bool:
+            if isinstance(e, ast.Call) and isinstance(e.func, ast.Attribute) and astq.is_self_attr(e.func.value, "_stream") and e.func.attr == "readinto":
+                return True
+            if isinstance(e, ast.Call) and dotted(e.func) == "len" and e.args and isinstance(e.args[0], ast.Name) and depth < 4:
+                ddefs = rd.reaching(node, e.args[0].id)
+                return bool(ddefs) and all(dd.value is not None and isinstance(dd.value, ast.Call) and isinstance(dd.value.func, ast.Attribute) and astq.is_self_attr(dd.value.func.value, "_stream") and dd.value.func.attr == "read" for dd in ddefs)
+            if isinstance(e, ast.Name) and depth < 4:
+                defs = rd.reaching(node, e.id)
+                return bool(defs) and all(d.value is not None and d.index is None and from_underlying(d.value, d.node or node, depth + 1) for d in defs)
+            return False
+
+        ctx.ob("R9.3", "_pos advances by the count the underlying call returned", from_underlying(cnt, inc_node), f"increment `{norm(inc)}`", ri, inc, "_pos increment source")
         rets = astq.returns_of(ri.node)
-        after = [r for r in rets if cfg.node_of(r) is not None and inc_node is not None and cfg.node_dominates(inc_node, cfg.node_of(r))]
+        after = [r for r in rets if cfg.node_of(r) is not None and cfg.node_dominates(inc_node, cfg.node_of(r))]
         others = [r for r in rets if r not in after]
         ok_ret = len(after) >= 1 and all(norm(r.value) == norm(cnt) for r in after) and all(norm(r.value) == "0" for r in others)
         ctx.ob("R9.3", "readinto returns the count it accounted for (0 otherwise)", ok_ret, f"after increment: {[norm(r.value) for r in after]}; other returns: {sorted({norm(r.value) for r in others})}", ri, ri.node, "readinto returns")
-        # zero count never advances: `if not out_size: on_disconnect(); return 0` dominates the increment
-        zero_tests = [t for t in cfg.tests() if t.kind == "test" and norm(t.ast) == norm(cnt)]
-        zok = any(cfg.edge_dominates(t, "T", inc_node) and _branch_calls(cfg, t, "F", "on_disconnect") for t in zero_tests)
-        ctx.ob("R9.5", "an empty read calls on_disconnect() and does not advance", zok, f"test on `{norm(cnt)}` before the increment", ri, inc, "empty read routing")
+        g_inc = guard_set(cfg, inc_node)
+        truthy = has(g_inc, norm(cnt)) or has(g_inc, f"{norm(cnt)} > 0") or has(g_inc, f"{norm(cnt)} == 0", False)
+        kc = canon(cnt)[0]
+        outs0 = simulate(cfg, lambda k: (False if k == kc else (not k_exh[1]) if k == k_exh[0] else None))
+        zero_ok = bool(outs0) and all(any(_calls(n, "on_disconnect") for n in o.passed) for o in outs0 if any(_touches_under(n) for n in o.passed))
+        ctx.ob("R9.5", "an empty read calls on_disconnect() and does not advance", truthy and zero_ok, f"increment only with a truthy count: {truthy}; every path with a falsy count after an underlying call passes on_disconnect(): {zero_ok}", ri, inc, "empty read routing")
 
     # ---------------- R9.4 -------------------------------------------
     n94 = 0
@@ -196,7 +235,6 @@ def run(ctx: Ctx) -> None:
             if sl.lower is None and sl.step is None and sl.upper is not None:
                 nexpr = sl.upper
                 src = st.value
-                # src sliced to the same bound
                 if isinstance(src, ast.Subscript) and isinstance(src.slice, ast.Slice) and src.slice.lower is None and src.slice.upper is not None and norm(src.slice.upper) == norm(nexpr):
                     ok = True
                     fact += " (source sliced to the same length)"
@@ -205,33 +243,33 @@ def run(ctx: Ctx) -> None:
                     defs = rd.reaching(node, nexpr.id)
                     ok = bool(defs) and all(d.value is not None and norm(d.value) == f"len({src.id})" for d in defs)
                     fact += f" ({nexpr.id} defined as {[norm(d.value) for d in defs if d.value is not None]})"
-            ctx.ob("R9.4", f"`{norm(st)}` is length-exact", ok, fact, ri, st, norm(st))
-    ctx.floor("R9.4", "buffer slice stores", n94, 2)
+                elif isinstance(nexpr, ast.Call) and dotted(nexpr.func) == "len" and norm(nexpr.args[0]) == norm(src):
+                    ok = True
+            ctx.ob("R9.4", "slice store into the caller's buffer is length-exact", ok, fact, ri, st, f"buffer store {norm(st)}")
+    ctx.floor("R9.4", "buffer slice stores", n94, 1)
 
-    # ---------------- R9.5 hooks ----------------------------------------
+    # ---------------- R9.5 hooks: decision tables ---------------------------
     oe = ls.methods.get("on_exhausted")
     od = ls.methods.get("on_disconnect")
     if oe is None or od is None:
         raise AnalysisError("on_exhausted / on_disconnect missing")
     ctx.saw(oe, od)
-    ce = cfg_of(oe)
-    raises = [n for n in ce.nodes if isinstance(n.ast, ast.Raise)]
-    ok = len(raises) == 1 and astq.raised_name(raises[0].ast) == "RequestEntityTooLarge" and _guards(ce, raises[0]) == {"self._limit_is_max:T"}
-    ctx.ob("R9.5", "on_exhausted raises RequestEntityTooLarge iff the limit is a maximum", ok, f"raise guards {[sorted(_guards(ce, r)) for r in raises]}", oe, oe.node, "on_exhausted")
-    cd = cfg_of(od)
-    raises = [n for n in cd.nodes if isinstance(n.ast, ast.Raise)]
-    ok = len(raises) == 1 and astq.raised_name(raises[0].ast) == "ClientDisconnected"
-    if ok:
-        # no-raise path exactly: _limit_is_max true and error is None
-        tests = {norm(t.ast) for t in cd.tests()}
-        ok = tests == {"self._limit_is_max", "error is not None"}
-        if ok:
-            quiet = cd.reach(avoid_nodes=raises)
-            # exit reachable without raise only via _limit_is_max:T and error is not None:F
-            t1 = [t for t in cd.tests() if norm(t.ast) == "self._limit_is_max"][0]
-            t2 = [t for t in cd.tests() if norm(t.ast) == "error is not None"][0]
-            ok = cd.exit.id in quiet and cd.exit.id not in cd.reach(avoid_nodes=raises, avoid_edges=[(t1, "T")]) and cd.exit.id not in cd.reach(avoid_nodes=raises, avoid_edges=[(t2, "F")])
-    ctx.ob("R9.5", "on_disconnect raises ClientDisconnected unless (limit is a maximum and no error)", ok, "", od, od.node, "on_disconnect")
+    MAX = atom("self._limit_is_max")[0]
+    ERRN = atom("error is None")[0]
+    bad = []
+    for v, outs_ in decision_table(cfg_of(oe), [MAX]):
+        got = {(o.kind == "raise" and _raised(o) == "RequestEntityTooLarge") for o in outs_}
+        if got != {v[MAX]}:
+            bad.append(f"is_max={v[MAX]} -> {sorted(_desc(o) for o in outs_)}")
+    ctx.ob("R9.5", "on_exhausted raises RequestEntityTooLarge iff the limit is a maximum", not bad, "; ".join(bad) or "decision table over {self._limit_is_max} matches", oe, oe.node, "on_exhausted")
+    bad = []
+    extra = [k for k in test_keys(cfg_of(od)) if k not in (MAX, ERRN)]
+    for v, outs_ in decision_table(cfg_of(od), [MAX, ERRN]):
+        want = not (v[MAX] and v[ERRN])
+        got = {(o.kind == "raise" and _raised(o) == "ClientDisconnected") for o in outs_}
+        if got != {want}:
+            bad.append(f"is_max={v[MAX]}, error is None={v[ERRN]} -> {sorted(_desc(o) for o in outs_)}")
+    ctx.ob("R9.5", "on_disconnect raises ClientDisconnected unless (limit is a maximum and no error)", not bad and not extra, "; ".join(bad) or f"decision table over {{is_max, error is None}} matches; other atoms: {extra}", od, od.node, "on_disconnect")
 
     # ---------------- R9.7 readall loop -----------------------------------
     ra = ls.methods["readall"]
@@ -240,26 +278,30 @@ def run(ctx: Ctx) -> None:
     if len(loops) != 1:
         raise AnalysisError("readall: expected one while loop")
     lp = loops[0]
-    cond_ok = norm(lp.test) in ("not self.is_exhausted",)
+    cond_ok = canon(lp.test) == (atom("self.is_exhausted")[0], False)
     breaks = [n for n in walk_no_nested(lp) if isinstance(n, ast.Break)]
     reads = [s for s in walk_no_nested(lp) if isinstance(s, ast.Assign) and isinstance(s.value, ast.Call) and isinstance(s.value.func, ast.Attribute) and s.value.func.attr == "read" and astq.is_name(s.value.func.value, "self")]
-    bad_exit = []
     if len(reads) == 1 and isinstance(reads[0].targets[0], ast.Name):
         dname = reads[0].targets[0].id
-        for b in breaks:
-            bn = cra.node_of(b)
-            dtests = [t for t in cra.tests() if t.kind == "test" and norm(t.ast) == dname]
-            if not any(cra.edge_dominates(t, "F", bn) and len(_loop_guards(cra, bn, lp)) == 1 for t in dtests):
-                bad_exit.append(b)
+        inner = {id(x) for s in lp.body for x in ast.walk(s)}
+        inner_keys = {canon(t_.ast)[0] for t_ in cra.tests() if t_.kind == "test" and id(t_.ast) in inner}
+
+        def inner_guards(n: Node) -> set:
+            return {(k, v) for (k, v) in guard_set(cra, n) if k in inner_keys}
+
+        empty = [{(dname, False)}, {(f"0 == len({dname})", True)}, {(f"len({dname}) == 0", True)}]
+        nonempty = [set(), {(dname, True)}, {(f"0 == len({dname})", False)}]
+        bad_exit = [(b, inner_guards(cra.node_of(b))) for b in breaks if inner_guards(cra.node_of(b)) not in empty]
         rets_in = [n for n in walk_no_nested(lp) if isinstance(n, (ast.Return, ast.Raise))]
         ok = cond_ok and not bad_exit and not rets_in
-        fact = f"loop while `{norm(lp.test)}`; {len(breaks)} break(s), all under `not {dname}` only: {not bad_exit}; returns/raises inside loop: {len(rets_in)}"
+        fact = f"loop while `{norm(lp.test)}`; {len(breaks)} break(s), each only under an empty `{dname}`: {not bad_exit}{' ' + str([sorted(g) for _, g in bad_exit]) if bad_exit else ''}; returns/raises inside loop: {len(rets_in)}"
+        sites = [c for c in astq.method_calls(lp, "extend") + astq.method_calls(lp, "append") if c.args and norm(c.args[0]) == dname] + [s for s in walk_no_nested(lp) if isinstance(s, ast.AugAssign) and norm(s.value) == dname]
+        acc_ok = any(inner_guards(cra.node_of(x)) in nonempty for x in sites if cra.node_of(x) is not None)
+        ctx.ob("R9.7", "every non-empty read is appended to the result", acc_ok, f"accumulation of `{dname}` inside the loop guarded by nothing but its non-emptiness: {acc_ok}", ra, lp, "readall accumulates")
     else:
         ok = False
-        fact = "no single `data = self.read(n)` in the loop"
+        fact = "no single `<name> = self.read(n)` in the loop"
     ctx.ob("R9.7", "readall loop exits only on exhaustion or an empty read", ok, fact, ra, lp, "readall loop exits")
-    ext = [c for c in astq.method_calls(lp, "extend")]
-    ctx.ob("R9.7", "every non-empty read is appended to the result", len(ext) == 1 and len(reads) == 1 and norm(ext[0].args[0]) == norm(reads[0].targets[0]), "out.extend(data)", ra, lp, "readall accumulates")
 
     # ---------------- R9.6 -------------------------------------------
     _input_stream(ctx)
@@ -270,36 +312,44 @@ def input_stream_rule(ctx: Ctx, rule: str) -> None:
     _input_stream(ctx, rule)
 
 
-def _loop_guards(cfg: CFG, node: Node, loop: ast.AST) -> set[str]:
-    """guards of node that are tests located inside the loop body (not the loop condition)."""
-    out = set()
-    inner = {id(x) for s in loop.body for x in ast.walk(s)}  # type: ignore[attr-defined]
-    for t, l in cfg.guards(node):
-        if id(t.ast) in inner:
-            out.add(f"{norm(t.ast)}:{l}")
-    return out
+def _calls(n: Node, method: str) -> bool:
+    return n.ast is not None and n.kind in ("stmt", "test") and any(isinstance(c.func, ast.Attribute) and c.func.attr == method for c in astq.calls(n.ast))
 
 
-def _branch_calls(cfg: CFG, test: Node, label: str, method: str) -> bool:
-    """the first statements on the `label` side of test call self.<method>() before anything else leaves."""
-    for s in cfg.succ(test, label):
-        cur = s
-        seen = set()
-        while cur is not None and cur.id not in seen:
-            seen.add(cur.id)
-            if cur.ast is not None and any(isinstance(c.func, ast.Attribute) and c.func.attr == method for c in astq.calls(cur.ast)):
-                return True
-            nxt = [x for x, l in cur.succs if l in (None,)]
-            cur = nxt[0] if len(nxt) == 1 else None
-    return False
+def _touches_under(n: Node) -> bool:
+    return n.ast is not None and n.kind in ("stmt", "test") and any(isinstance(c.func, ast.Attribute) and astq.is_self_attr(c.func.value, "_stream") for c in astq.calls(n.ast))
 
 
-def _reaches_underlying(cfg: CFG, test: Node, label: str, under: list[ast.Call]) -> bool:
-    starts = cfg.succ(test, label)
-    r: set[int] = set()
-    for s in starts:
-        r |= cfg.reach(s)
-    return any((cfg.node_of(c).id in r) for c in under if cfg.node_of(c) is not None)
+def _raised(o) -> str | None:
+    e = o.value
+    if isinstance(e, ast.Call):
+        e = e.func
+    d = dotted(e) if e is not None else None
+    return d.rsplit(".", 1)[-1] if d else None
+
+
+def _desc(o) -> str:
+    if o.kind == "raise":
+        return f"raise {_raised(o)}"
+    if o.kind == "return":
+        return f"return {norm(o.value) if o.value is not None else None}"
+    return o.kind
+
+
+def _classify_stream(v: ast.AST | None) -> str:
+    v = _strip_cast(v)
+    if v is None:
+        return "None"
+    if isinstance(v, ast.Name):
+        return f"name:{v.id}"
+    if isinstance(v, ast.Call) and (dotted(v.func) or "").endswith("BytesIO") and not v.args:
+        return "BytesIO()"
+    if isinstance(v, ast.Call) and (dotted(v.func) or "").endswith("LimitedStream"):
+        src = norm(v.args[0]) if v.args else "?"
+        lim = norm(v.args[1]) if len(v.args) > 1 else norm(astq.kwarg(v, "limit") or ast.Constant(None))
+        ismax = astq.arg_or_kw(v, 2, "is_max")
+        return f"LimitedStream({src}, {lim}, is_max={norm(ismax) if ismax is not None else 'False'})"
+    return f"other:{norm(v)[:40]}"
 
 
 def _input_stream(ctx: Ctx, RULE: str = "R9.6") -> None:
@@ -307,68 +357,40 @@ def _input_stream(ctx: Ctx, RULE: str = "R9.6") -> None:
     gi = repo.func("wsgi.get_input_stream")
     ctx.saw(gi)
     cfg = cfg_of(gi)
-    rets = astq.returns_of(gi.node)
-    rows = []
-    for r in rets:
-        node = cfg.node_of(r)
-        g = _guards(cfg, node)
-        v = r.value
-        while isinstance(v, ast.Call) and (dotted(v.func) or "").endswith("cast") and len(v.args) == 2:
-            v = v.args[1]
-        if isinstance(v, ast.IfExp):
-            rows.append((r, v.body, g | {f"{norm(v.test)}:T"}))
-            rows.append((r, v.orelse, g | {f"{norm(v.test)}:F"}))
-        else:
-            rows.append((r, v, g))
-    ctx.floor(RULE, "return rows", len(rows), 4)
-    TERM = "'wsgi.input_terminated' in environ"
-    for r, v, g in rows:
-        vs = norm(v)
-        term = f"{TERM}:T" in g
-        noterm = f"{TERM}:F" in g
-        has_max = "max_content_length is not None:T" in g
-        no_max = "max_content_length is not None:F" in g
-        no_len = "content_length is None:T" in g
-        has_len = "content_length is None:F" in g
-        if isinstance(v, ast.Call) and (dotted(v.func) or "").endswith("LimitedStream"):
-            lim = norm(v.args[1]) if len(v.args) > 1 else norm(astq.kwarg(v, "limit") or ast.Constant(None))
-            ismax = astq.arg_or_kw(v, 2, "is_max")
-            ismax_v = norm(ismax) if ismax is not None else "False"
-            src = norm(v.args[0]) if v.args else "?"
-            if ismax_v == "True":
-                ok = term and has_max and lim == "max_content_length" and src == "stream"
-                exp = "is_max=True only under terminated & max, with limit max_content_length"
-            else:
-                ok = ismax_v == "False" and noterm and has_len and lim == "content_length" and src == "stream"
-                exp = "plain LimitedStream only on a non-terminated input with a length, with limit content_length"
-        elif vs == "stream":
-            ok = (term and no_max) or (noterm and no_len and "safe_fallback:F" in g)
-            exp = "raw stream only under terminated & no max, or no length & not safe_fallback"
-        elif isinstance(v, ast.Call) and (dotted(v.func) or "").endswith("BytesIO") and not v.args:
-            ok = noterm and no_len and "safe_fallback:T" in g
-            exp = "empty stream under no usable length & safe_fallback"
-        else:
-            ok = False
-            exp = "unexpected return value"
-        ctx.ob(RULE, f"return `{vs}`", ok, f"{exp}; dominating guards {sorted(g)}", gi, r, f"return {vs} under {sorted(g)}")
-    # the declared-length test: raise RequestEntityTooLarge under content_length > max; every return avoids its true edge
-    raises = [n for n in cfg.nodes if isinstance(n.ast, ast.Raise) and astq.raised_name(n.ast) == "RequestEntityTooLarge"]
-    ok = False
-    fact = "no raise RequestEntityTooLarge"
-    if len(raises) == 1:
-        g = _guards(cfg, raises[0])
-        need = {"content_length is not None:T", "max_content_length is not None:T"}
-        cmp_ok = bool(g & {"content_length > max_content_length:T", "max_content_length < content_length:T"})
-        tests = [t for t in cfg.tests() if norm(t.ast) in ("content_length > max_content_length", "max_content_length < content_length")]
-        # the comparison is evaluated on every path to a return whenever both are not None: returns are not reachable avoiding the test when both conjuncts hold
-        both = [t for t, l in cfg.guards(raises[0]) if l == "T" and norm(t.ast) in ("content_length is not None", "max_content_length is not None")]
-        dominated = len(tests) == 1 and len(both) == 2 and all(
-            cfg.node_of(r).id not in cfg.reach(avoid_nodes=tests, avoid_edges=[(b, "F") for b in both]) for r in rets
-        )
-        ok = need <= g and cmp_ok and dominated and g == need | (g & {"content_length > max_content_length:T", "max_content_length < content_length:T"})
-        fact = f"raise guards {sorted(g)}; comparison precedes every return when both values are present: {dominated}"
-    ctx.ob(RULE, "declared length above the maximum is refused before any stream is returned", ok, fact, gi, raises[0].ast if raises else gi.node, "declared length test")
-    # slots: stream / content_length definitions
+    TERM = atom("'wsgi.input_terminated' in environ")[0]
+    MAXN = atom("max_content_length is None")[0]
+    CLN = atom("content_length is None")[0]
+    SAFE = atom("safe_fallback")[0]
+    GT = atom("content_length > max_content_length")[0]
+    known = [TERM, MAXN, CLN, SAFE, GT]
+    present = test_keys(cfg)
+    unknown = [k for k in present if k not in known]
+    missing = [k for k in known if k not in present]
+    ctx.ob(RULE, "get_input_stream decides on the documented atoms only", not unknown and not missing, f"atoms found {present}; unknown {unknown}; missing {missing}", gi, gi.node, "input stream atoms")
+
+    def spec(v) -> str:
+        if not v[CLN] and not v[MAXN] and v[GT]:
+            return "raise RequestEntityTooLarge"
+        if v[TERM]:
+            return "name:stream" if v[MAXN] else "LimitedStream(stream, max_content_length, is_max=True)"
+        if v[CLN]:
+            return "BytesIO()" if v[SAFE] else "name:stream"
+        return "LimitedStream(stream, content_length, is_max=False)"
+
+    by_expected: dict[str, list[str]] = {}
+    rows = decision_table(cfg, known)
+    for v, outs in rows:
+        want = spec(v)
+        got = sorted({("raise " + (_raised(o) or "?")) if o.kind == "raise" else _classify_stream(o.value) if o.kind == "return" else o.kind for o in outs})
+        by_expected.setdefault(want, [])
+        if got != [want]:
+            by_expected[want].append(f"[terminated={v[TERM]}, max is None={v[MAXN]}, length is None={v[CLN]}, safe_fallback={v[SAFE]}, length>max={v[GT]}] -> {got}")
+    ctx.floor(RULE, "decision rows of get_input_stream", len(rows), 32)
+    for want in ["raise RequestEntityTooLarge", "LimitedStream(stream, max_content_length, is_max=True)", "name:stream", "BytesIO()", "LimitedStream(stream, content_length, is_max=False)"]:
+        bad = by_expected.get(want)
+        if bad is None:
+            bad = ["no row expects this outcome"]
+        ctx.ob(RULE, f"input stream table: rows expecting `{want.replace('name:', '')}`", not bad, ("; ".join(bad[:4]) + (f" (+{len(bad) - 4} more rows)" if len(bad) > 4 else "")) if bad else "all rows agree", gi, gi.node, f"input stream table {want}")
     d1 = [norm(v) for _, v in astq.assigns_to(gi.node, "content_length") if v is not None]
     ctx.ob(RULE, "content_length comes from get_content_length(environ)", d1 == ["get_content_length(environ)"], f"{d1}", gi, gi.node, "content_length source")
     d2 = [norm(v) for _, v in astq.assigns_to(gi.node, "stream") if v is not None]
@@ -378,18 +400,23 @@ def _input_stream(ctx: Ctx, RULE: str = "R9.6") -> None:
     gl = repo.func("sansio.utils.get_content_length")
     ctx.saw(gl)
     c2 = cfg_of(gl)
-    rr = astq.returns_of(gl.node)
-    table = {}
-    for r in rr:
-        table[norm(r.value)] = _guards(c2, c2.node_of(r))
-    none_ok = "None" in table and any("== 'chunked'" in x or "is None" in x for x in table["None"] | {norm(t.ast) for t in c2.tests()})
-    maxes = [k for k in table if k.startswith("max(0, _plain_int(")]
-    tr = [n for n in ast.walk(gl.node) if isinstance(n, ast.Try)]
-    h_ok = bool(tr) and any((dotted(h.type) or "") == "ValueError" and any(isinstance(s, ast.Return) and norm(s.value) == "0" for s in h.body) for h in tr[0].handlers)
-    first_if = [n for n in gl.node.body if isinstance(n, ast.If)]
-    cond = norm(first_if[0].test) if first_if else ""
-    cond_ok = "http_transfer_encoding == 'chunked'" in cond and "http_content_length is None" in cond and " or " in cond
-    ctx.ob(RULE, "get_content_length: chunked or absent -> None; max(0, plain int); ValueError -> 0", none_ok and len(maxes) == 1 and h_ok and cond_ok, f"returns {sorted(table)}; first test `{cond}`", gl, gl.node, "get_content_length table")
+    CH = atom("http_transfer_encoding == 'chunked'")[0]
+    HN = atom("http_content_length is None")[0]
+    bad = []
+    for v, outs in decision_table(c2, [CH, HN]):
+        vals = sorted({norm(o.value) if o.kind == "return" and o.value is not None else o.kind for o in outs})
+        if v[CH] or v[HN]:
+            if vals != ["None"]:
+                bad.append(f"chunked={v[CH]}, absent={v[HN]} -> {vals}")
+        elif "None" in vals or any(x in ("fall", "raise") for x in vals):
+            bad.append(f"chunked={v[CH]}, absent={v[HN]} -> {vals}")
+    pis = [c for c in astq.calls(gl.node) if (dotted(c.func) or "").endswith("_plain_int")]
+    h_ok = False
+    for c in pis:
+        tr = astq.enclosing(c, (ast.Try,))
+        h_ok = isinstance(tr, ast.Try) and any((dotted(h.type) or "") in ("ValueError", "Exception") and any(isinstance(s, ast.Return) and norm(s.value) == "0" for s in h.body) for h in tr.handlers if h.type is not None)
+    clamp = any(dotted(c.func) == "max" and any(norm(a) == "0" for a in c.args) for c in astq.calls(gl.node))
+    ctx.ob(RULE, "get_content_length: chunked or absent -> None; otherwise max(0, plain int); ValueError -> 0", not bad and len(pis) == 1 and h_ok and clamp, f"table mismatches {bad}; _plain_int in try with ValueError -> 0: {h_ok}; clamped at 0: {clamp}", gl, gl.node, "get_content_length table")
     pi = repo.func("_internal._plain_int")
     ctx.saw(pi)
     folder = Folder(repo)
@@ -399,16 +426,11 @@ def _input_stream(ctx: Ctx, RULE: str = "R9.6") -> None:
     if len(fm) == 1:
         rx = folder.name(pi.module, dotted(fm[0].func.value) or "")  # type: ignore[attr-defined]
         if isinstance(rx, RegexConst):
-            import re
-
-            cre = rx.parsed()
-            items = list(cre)
             digits_only = bool(rx.flags & re.A) and all(c in b"-0123456789" for cls in classes_in(rx, 256) for c in cls)
             raises_ve = any(astq.raised_name(r) == "ValueError" for r in astq.raises_of(pi.node))
             ok = digits_only and raises_ve
             fact = f"pattern {rx.pattern!r} flags={rx.flags}: ASCII digits only={digits_only}; raises ValueError on mismatch={raises_ve}"
     ctx.ob(RULE, "_plain_int accepts only ASCII digits (optional sign) and raises ValueError otherwise", ok, fact, pi, pi.node, "_plain_int pattern")
-    # wsgi.get_content_length forwards the two environ variables
     wg = repo.func("wsgi.get_content_length")
     ctx.saw(wg)
     s = norm(wg.node)
